@@ -35,7 +35,6 @@ Record params := mkPrm {
 (* the model's view of `solver_state_t& state`: the last probe's answer, plus two ghosts (probe count, requested t's,
    most recent first) *)
 Record state := mkSt { cur : probe; cnt : Z; trace : list float }.
-Record result := mkR { ok : bool; rt : float; rs : state }.
 
 (* ---------- libstdc++ helpers with their exact NaN / signed-zero behaviour ---------- *)
 Definition fmin (a b : float) : float := if b <? a then b else a.       (* std::min(a, b) *)
@@ -132,6 +131,14 @@ Record mtst := mkMT { m_stage2 : bool; m_brackt : bool; m_stmin : float; m_stmax
 (* CG_DESCENT's interval_t (+ the mutable params.m_max_iterations travelling with it) *)
 Record interval := mkIv { i_step : float; i_a : step; i_b : step; i_s : state; i_mi : Z }.
 
+(* ghost of a *successful* More-Thuente / CG_DESCENT return: the locals the deciding test was evaluated on
+   (More-Thuente: brackt, stmin, stmax, ... at the `return {true, stp}`; CG_DESCENT: the interval [a, b] and the
+   `bracketed` argument of the `done` call that returned true). XNone everywhere else. Never influences (ok, t, state). *)
+Inductive exitinfo := XNone | XMT (m : mtst) | XCG (iv : interval) (bracketed : bool).
+
+Record result := mkRX { ok : bool; rt : float; rs : state; rx : exitinfo }.
+Notation mkR o t s := (mkRX o t s XNone).
+
 Section Model.
   Variable phi : Z -> float -> probe.     (* probe oracle: (number of earlier probes, t) |-> answer *)
   Variable prm : params.
@@ -226,29 +233,29 @@ Section Model.
   (* ---------- morethuente.cpp ---------- *)
   Definition mt_finit : float := pf p0.
   Definition mt_ginit : float := pg p0.
-  Definition mt_gtest : float := c1 prm * mt_ginit.
+  Definition mt_gtest : float := src_mth_gtest_f (c1 prm) mt_ginit.
 
-  (* the five `return {true, stp}` tests at the top of an iteration *)
+  (* the five `return {true, stp}` tests at the top of an iteration, each translated from morethuente.cpp (source order) *)
+  Definition mt_ftest (stp : float) : float := src_mth_ftest_f mt_finit stp mt_gtest.
+  Definition mt_exit_rounding (stp : float) (m : mtst) : bool :=
+    src_mth_exit_rounding_f (m_brackt m) stp (m_stmin m) (m_stmax m).
+  Definition mt_exit_collapsed (m : mtst) : bool := src_mth_exit_collapsed_f (m_brackt m) (m_stmin m) (m_stmax m) eps0.
+  Definition mt_exit_stpmax (p : probe) (stp : float) : bool :=
+    src_mth_exit_stpmax_f stp stpmax (pf p) (mt_ftest stp) (pg p) mt_gtest.
+  Definition mt_exit_stpmin (p : probe) (stp : float) : bool :=
+    src_mth_exit_stpmin_f stp stpmin (pf p) (mt_ftest stp) (pg p) mt_gtest.
+  Definition mt_converged (p : probe) (stp : float) : bool :=
+    src_mth_converged_f (pf p) (mt_ftest stp) (abs (pg p)) (pg p) (c2 prm) mt_ginit.
+
   Definition mt_stop (p : probe) (stp : float) (m : mtst) : bool :=
-    let f := pf p in
-    let g := pg p in
-    let gtest := mt_gtest in
-    let ftest := mt_finit + stp * gtest in
-    let brackt := m_brackt m in
-    let stmin := m_stmin m in
-    let stmax := m_stmax m in
-    (brackt && ((stp <=? stmin) || (stmax <=? stp)))
-    || (brackt && (stmax - stmin <=? eps0 * stmax))
-    || ((stpmax <=? stp) && (f <=? ftest) && (g <=? gtest))
-    || ((stp <=? stpmin) && ((ftest <? f) || (gtest <=? g)))
-    || ((f <=? ftest) && (abs g <=? c2 prm * (- mt_ginit))).
+    mt_exit_rounding stp m || mt_exit_collapsed m || mt_exit_stpmax p stp || mt_exit_stpmin p stp || mt_converged p stp.
 
   (* the rest of the iteration: the next trial step and the updated locals *)
   Definition mt_next (p : probe) (stp : float) (m : mtst) : float * mtst :=
     let f := pf p in
     let g := pg p in
     let gtest := mt_gtest in
-    let ftest := mt_finit + stp * gtest in
+    let ftest := mt_ftest stp in
     let stage2 := m_stage2 m || ((f <=? ftest) && (0 <=? g)) in
     let brackt := m_brackt m in
     let stmin := m_stmin m in
@@ -277,15 +284,14 @@ Section Model.
     let stmin' := if brackt' then fmin stx sty else stp1 + (stp1 - stx) * k11 in
     let stmax' := if brackt' then fmax stx sty else stp1 + (stp1 - stx) * 4 in
     let stp2 := fclamp stp1 stpmin stpmax in
-    let stp3 := if (brackt' && ((stp2 <=? stmin') || (stmax' <=? stp2)))
-                   || (brackt' && (stmax' - stmin' <=? eps0 * stmax')) then stx else stp2 in
+    let stp3 := if src_mth_noprogress_f brackt' stp2 stmin' stmax' eps0 then stx else stp2 in
     (stp3, mkMT stage2 brackt' stmin' stmax' width' width1' stx (d_fx d) (d_dx d) sty (d_fy d) (d_dy d)).
 
   Fixpoint morethuente (fuel : nat) (s : state) (stp : float) (m : mtst) : result :=
     match fuel with
     | O => mkR false stp s
     | S k =>
-      if mt_stop (cur s) stp m then mkR true stp s
+      if mt_stop (cur s) stp m then mkRX true stp s (XMT m)
       else
         let '(stp', m') := mt_next (cur s) stp m in
         let s' := update s stp' in
@@ -298,7 +304,7 @@ Section Model.
     mkMT false false 0 (stp + stp * 4) width (2 * width) 0 mt_finit mt_ginit 0 mt_finit mt_ginit.
 
   (* ---------- cgdescent.cpp ---------- *)
-  Definition cg_epsk : float := cg_epsilon prm * abs (pf p0).
+  Definition cg_epsk : float := src_cg_epsilonk_f (cg_epsilon prm) (abs (pf p0)).
 
   Definition iv_cur (iv : interval) : probe := cur (i_s iv).
   Definition cg_move (iv : interval) (t : float) : interval :=
@@ -310,11 +316,18 @@ Section Model.
   Definition cg_setA (iv : interval) (a : step) : interval := mkIv (i_step iv) a (i_b iv) (i_s iv) (i_mi iv).
   Definition cg_dec (iv : interval) : interval := mkIv (i_step iv) (i_a iv) (i_b iv) (i_s iv) (i_mi iv - 1)%Z.
 
+  (* interval_t::done: its three tests are translated from cgdescent.cpp *)
+  Definition cg_failed (iv : interval) (bracketed : bool) : bool :=
+    src_cg_done_failed_f bracketed (st_f (i_a iv)) (pf p0) cg_epsk (st_g (i_b iv)) (pv (iv_cur iv)).
+  Definition cg_outside (iv : interval) : bool := src_cg_done_outside_f (i_step iv) (st_t (i_a iv)) (st_t (i_b iv)).
+  Definition cg_accept (iv : interval) : bool :=
+    src_cg_done_accept_f (has_armijo p0 (iv_cur iv) (i_step iv) (c1 prm)) (has_wolfe p0 (iv_cur iv) (c2 prm))
+                         (has_approx_armijo p0 (iv_cur iv) cg_epsk) (has_approx_wolfe p0 (iv_cur iv) (c1 prm) (c2 prm)).
+
   Definition cg_done (iv : interval) (bracketed : bool) : bool :=
-    if (bracketed && ((pf p0 + cg_epsk <? st_f (i_a iv)) || (st_g (i_b iv) <? 0))) || negb (pv (iv_cur iv)) then true
-    else if (i_step iv <? st_t (i_a iv)) || (st_t (i_b iv) <? i_step iv) then false
-    else (has_armijo p0 (iv_cur iv) (i_step iv) (c1 prm) && has_wolfe p0 (iv_cur iv) (c2 prm))
-         || (has_approx_armijo p0 (iv_cur iv) cg_epsk && has_approx_wolfe p0 (iv_cur iv) (c1 prm) (c2 prm)).
+    if cg_failed iv bracketed then true
+    else if cg_outside iv then false
+    else cg_accept iv.
 
   Fixpoint cg_updateU (fuel : nat) (iv : interval) : interval :=
     match fuel with
@@ -356,7 +369,8 @@ Section Model.
       if cg_done iv1 true then (true, iv1)
       else let iv2 := cg_update iv1 in (cg_done iv2 true, iv2).
 
-  Definition cg_ret (iv : interval) : result := mkR (pv (iv_cur iv)) (i_step iv) (i_s iv).
+  Definition cg_ret (iv : interval) (bracketed : bool) : result :=
+    mkRX (pv (iv_cur iv)) (i_step iv) (i_s iv) (XCG iv bracketed).
 
   Fixpoint cg_loop (fuel : nat) (i : Z) (iv : interval) : result :=
     match fuel with
@@ -369,25 +383,25 @@ Section Model.
         let prev_width := st_t b0 - st_t a0 in
         let tc := secant a0 b0 in
         let '(d1, iv1) := cg_mucd iv tc in
-        if d1 then cg_ret iv1
+        if d1 then cg_ret iv1 true
         else
           let '(d2, iv2) :=
             if abs (tc - st_t (i_a iv1)) <? eps0 then cg_mucd iv1 (secant a0 (i_a iv1))
             else if abs (tc - st_t (i_b iv1)) <? eps0 then cg_mucd iv1 (secant b0 (i_b iv1))
             else (false, iv1) in
-          if d2 then cg_ret iv2
+          if d2 then cg_ret iv2 true
           else if cg_gamma prm * prev_width <? st_t (i_b iv2) - st_t (i_a iv2) then
             let '(d3, iv3) := cg_mucd iv2 ((st_t (i_a iv2) + st_t (i_b iv2)) / 2) in
-            if d3 then cg_ret iv3 else cg_loop k (i + 1)%Z iv3
+            if d3 then cg_ret iv3 true else cg_loop k (i + 1)%Z iv3
           else cg_loop k (i + 1)%Z iv2
     end.
 
   Definition cgdescent (s : state) (t : float) : result :=
     let iv := mkIv t step0 (step_of t (cur s)) s (maxit prm) in
-    if cg_done iv false then cg_ret iv
+    if cg_done iv false then cg_ret iv false
     else
       let iv1 := cg_bracket (fuel_of (maxit prm)) iv (i_a iv) in
-      if cg_done iv1 true then cg_ret iv1
+      if cg_done iv1 true then cg_ret iv1 true
       else cg_loop (fuel_of (maxit prm)) 0%Z iv1.
 
   (* ---------- lsearchk.cpp: lsearchk_t::get ---------- *)
